@@ -100,6 +100,10 @@ def sepiaSpecQ (r g b : Int) : List Int :=
 def stretchCore {α : Type} [Add α] [Sub α] [Mul α] [Div α] (mn ptp lo hi x : α) : α :=
   (x - mn) * ((hi - lo) / ptp) + lo
 
+/-- `if max >= min: np.minimum(img, max, out=img)`: rounding must not carry a pixel above `hi` -/
+def capHi {α : Type} [LT α] [DecidableLT α] (lo hi y : α) : α :=
+  if hi < lo then y else if hi < y then hi else y
+
 def minL {α : Type} [LT α] [DecidableLT α] : α → List α → α
   | m, [] => m
   | m, x :: xs => minL (if x < m then x else m) xs
@@ -109,7 +113,7 @@ def maxL {α : Type} [LT α] [DecidableLT α] : α → List α → α
   | m, x :: xs => maxL (if m < x then x else m) xs
 
 /-- `stretch` before the final cast: `img -= img.min(); ptp = img.ptp();` constant image ↦ all `lo`,
-    otherwise the affine map (`x ↦ (x - min) * ((hi - lo)/ptp) + lo`). -/
+    otherwise the affine map (`x ↦ (x - min) * ((hi - lo)/ptp) + lo`) capped at `hi`. -/
 def stretchList {α : Type} [Add α] [Sub α] [Mul α] [Div α] [LT α] [DecidableLT α] [OfNat α 0]
     (xs : List α) (lo hi : α) : List α :=
   match xs with
@@ -117,7 +121,7 @@ def stretchList {α : Type} [Add α] [Sub α] [Mul α] [Div α] [LT α] [Decidab
   | x0 :: rest =>
     let mn := minL x0 rest
     let ptp := maxL (x0 - mn) (rest.map (· - mn))
-    if 0 < ptp then xs.map (stretchCore mn ptp lo hi) else xs.map (fun _ => lo)
+    if 0 < ptp then xs.map (fun x => capHi lo hi (stretchCore mn ptp lo hi x)) else xs.map (fun _ => lo)
 
 /-- C cast double → integer dtype (truncation towards zero); exact for |v| < 2^63 -/
 def truncF (v : Float) : Int := v.toInt64.toInt
